@@ -45,6 +45,9 @@ type Plan struct {
 	Exhaustive    bool             `json:"exhaustive"`
 	CompareRes    bool             `json:"compare_res"` // driver compares per-case result hashes across configs
 	PerCase       bool             `json:"per_case"`    // always log begin per case (process-death properties)
+	// HangIsViolation: a case that does not finish (even alone with 5x budget) violates the property
+	// (C04, C05, C08, C12); otherwise it is counted as inconclusive (the property says nothing about time).
+	HangIsViolation bool `json:"hang_is_violation"`
 }
 
 // Prop is implemented by every property.
